@@ -183,7 +183,11 @@ func runC10(w *vx.W) {
 			if w.Expired("chains") {
 				break
 			}
-			runEnv(c10Case{s, nil, "DecodeChained"}, ob, 2)
+			bound := 2
+			if ob && len(s.B) > 150 && !thorough {
+				bound = 1 // long chains under 1-byte default reads: bound 1 in the quick tier
+			}
+			runEnv(c10Case{s, nil, "DecodeChained"}, ob, bound)
 		}
 	}
 	// larger than the internal 4096-byte buffer
